@@ -341,6 +341,9 @@ def _outer_joined(tree, path, every=False):
         lit = None
         allj = []
         d = {"path": path}
+        if not isinstance(cur, (str, list)) and cur[0] == "ExprJoinedStr":
+            allj.append(cur[1])         # the tree itself is the literal (bodies of Expression-mode parses)
+            lit = cur[1]
         for step in re.findall(r"\.([a-z_]+)|\[(\d+)\]", d["path"].rsplit(".range", 1)[0]):
             try:
                 if step[0]:
@@ -897,9 +900,45 @@ class _no_c11_finding_filter:
         c11.finding_shapes = self.saved
 
 
+def line_break_in_field(src):
+    """a line break between the braces of a replacement field of a (triple-quoted) f-string"""
+    if "\n" not in src or "{" not in src:
+        return False
+    try:
+        toks = list(tokenize.generate_tokens(io.StringIO(src).readline))
+    except (tokenize.TokenError, IndentationError, SyntaxError):
+        return True
+    for t in toks:
+        if t.type != tokenize.STRING or "\n" not in t.string:
+            continue
+        pre = re.match(r"[A-Za-z]*", t.string).group(0)
+        if "f" not in pre.lower():
+            continue
+        body = t.string[len(pre) + 3:-3]
+        i, depth = 0, 0
+        while i < len(body):
+            ch = body[i]
+            if ch == "{":
+                if depth == 0 and body[i + 1:i + 2] == "{":
+                    i += 2
+                    continue
+                depth += 1
+            elif ch == "}":
+                if depth == 0 and body[i + 1:i + 2] == "}":
+                    i += 2
+                    continue
+                depth = max(0, depth - 1)
+            elif ch == "\n" and depth > 0:
+                return True
+            i += 1
+    return False
+
+
 def _rx_ok(s):
-    """inside the domain of the Lean tokenizer, accepted by CPython (the reference), known characters only"""
-    if not s or len(s) > 2000 or not c11.in_lexer_domain(s):
+    """inside the domain of the Lean tokenizer, accepted by CPython (the reference), known characters only; no line
+    break inside a replacement field (CPython 3.11 positions the nodes of such a field relative to the wrong line,
+    so there is no reference extent; the module-mode sweeps leave the shape out for the same reason)"""
+    if not s or len(s) > 2000 or not c11.in_lexer_domain(s) or line_break_in_field(s):
         return False
     t = c11.py_tree(s)
     return t is not None and c11.tree_in_domain(t)
@@ -1087,8 +1126,7 @@ def rx_families(ctx):
     """[(stream name, kind, exhaustive, note, [source])] — deterministic in ctx.rng"""
     q = ctx.quick
     fams = []
-    probes = [s for _, m, s in PROBES if m == "e"]
-    corpus = _uniq(RX_FINDING_EXPRS + probes + c11.CORPUS + [s for k in c11.FINDING_PROBES for s in c11.FINDING_PROBES[k]]
+    corpus = _uniq(RX_FINDING_EXPRS + c11.CORPUS + [s for k in c11.FINDING_PROBES for s in c11.FINDING_PROBES[k]]
                    + RX_LAYOUT + RX_LAYOUT_ML)
     fams.append(("corpus", "corpus", False,
                  "the listed findings that are expressions, C11's regression corpus and finding probes, hand-written "
